@@ -209,10 +209,22 @@ func (g *genState) genDeps(t *rapid.T, life int) (deps []DepSpec, needIn bool) {
 			gk := rapid.SampledFrom(cands).Draw(t, "gdep")
 			g.closedGrp[gk] = true
 			gd := DepSpec{T: gk.T, Group: gk.Group}
-			if rapid.IntRange(0, 5).Draw(t, "groupAndName") == 0 {
+			odds := 5
+			if gk.T == TI0 {
+				odds = 1 // groups over I0 share their field type with the slice-typed service
+			}
+			if rapid.IntRange(0, odds).Draw(t, "groupAndName") == 0 {
 				// a group field that also carries a name tag: filled from the group, the name is ignored -
 				// also when a service of the field's own slice type is registered under that very name
 				gd.Key = rapid.SampledFrom([]string{"alsonamed", "a", "b b"}).Draw(t, "alsoName")
+				if gk.T == TI0 {
+					// ... in particular when a service of the field's own type []I0 is registered under a name
+					for _, a := range g.avail {
+						if IsSliceSvc(a.id.T) && a.id.Key != "" {
+							gd.Key = a.id.Key
+						}
+					}
+				}
 			}
 			deps = append(deps, gd)
 		case k == 7: // built-in
